@@ -285,3 +285,71 @@ func c19SameWireType(c *Ctx, mar, unm *ssa.Function, typeKey string) {
 	}
 	c.Check("C19.R1", typeKey+":same-wire-type", unm.Pos(), bad == nil, "every successful path of UnmarshalJSON decodes the input into "+strings.Join(names, "/"), "UnmarshalJSON can succeed without decoding its input into the type MarshalJSON encodes ("+strings.Join(names, "/")+"): it accepts a second wire form, and what the dump writes for an empty value (null) can be read back through it as a different value - the second dump differs from the first")
 }
+
+// c19ParseIdempotent (R8): loading a configuration twice gives what loading it once gives.
+// The values the parser leaves in the configuration are what is stored, dumped and loaded again after a restart. A
+// parse-time rewrite that computes a field's new value from its old one by arithmetic (x = x / 100, x = x * unit, x += k)
+// is applied again on every reload: the second load sees a different configuration than the first, and the second dump
+// differs from the first. Clause: in the parse functions of pkg/configmanager no store into a field of the parsed
+// configuration has a value computed arithmetically from a load of that same field. (Defaults assigned under a zero test,
+// copies and clamps to constants are idempotent and not affected.)
+func c19ParseIdempotent(c *Ctx) {
+	pkg := "pkg/configmanager"
+	nStores := 0
+	ord := ordCounter{}
+	arith := map[token.Token]bool{token.ADD: true, token.SUB: true, token.MUL: true, token.QUO: true, token.REM: true, token.SHL: true, token.SHR: true}
+	for _, fn := range c.PkgFuncs(pkg) {
+		top := fn
+		for top.Parent() != nil {
+			top = top.Parent()
+		}
+		if !strings.HasPrefix(top.Name(), "Parse") && !strings.HasPrefix(top.Name(), "parse") && !strings.HasPrefix(top.Name(), "trans") {
+			continue
+		}
+		forEachInstr(fn, false, func(f *ssa.Function, in ssa.Instruction) {
+			st, ok := in.(*ssa.Store)
+			if !ok {
+				return
+			}
+			if _, _, _, okf := fieldAddrInfo(st.Addr); !okf {
+				return
+			}
+			nStores++
+			var self bool
+			var walk func(v ssa.Value, underArith bool, d int)
+			walk = func(v ssa.Value, underArith bool, d int) {
+				if d > 5 || v == nil || self {
+					return
+				}
+				switch x := v.(type) {
+				case *ssa.BinOp:
+					a := underArith || arith[x.Op]
+					walk(x.X, a, d+1)
+					walk(x.Y, a, d+1)
+				case *ssa.Convert:
+					walk(x.X, underArith, d+1)
+				case *ssa.ChangeType:
+					walk(x.X, underArith, d+1)
+				case *ssa.UnOp:
+					if x.Op == token.MUL && underArith && sameFieldPath(x.X, st.Addr) && rootOf(x.X) == rootOf(st.Addr) {
+						self = true
+					}
+				case *ssa.Phi:
+					for _, e := range x.Edges {
+						walk(e, underArith, d+1)
+					}
+				}
+			}
+			walk(st.Val, false, 0)
+			if self {
+				_, fld, _, _ := fieldAddrInfo(st.Addr)
+				c.Fail("C19.R8", ord.next(f, "parse-rewrite-not-idempotent:"+fld), st.Pos(), "the parser rewrites "+fld+" arithmetically from its own value in "+top.Name()+": the rewritten value is what gets stored and dumped, so loading the dump applies the rewrite again - the restarted proxy and the second dump differ from the first")
+			}
+		})
+	}
+	if nStores < 5 {
+		c.Unresolved("C19.R8", fmt.Sprintf("stores into configuration fields in the parse functions of %s (found %d)", pkg, nStores))
+		return
+	}
+	c.Pass("C19.R8", "pkg/configmanager:parse-rewrites-idempotent", token.NoPos, fmt.Sprintf("%d stores into configuration fields in parse functions, none computed arithmetically from the field's own value", nStores))
+}
